@@ -21,8 +21,10 @@ var tieKinds = []string{"TreeSet", "TreeMap", "TreeBidiMap", "RedBlackTree", "AV
 
 // assoc: entries pairwise non-tying, kept ascending under cmp
 type assoc struct {
-	cmp  func(a, b int) int
-	ents [][2]int
+	cmp        func(a, b int) int
+	ents       [][2]int
+	insertion  bool // linked hash kinds: insertion order instead of ascending
+	keepOldKey bool // linked hash kinds: a tying Put keeps the first spelling of the key (new value)
 }
 
 func (a *assoc) find(k int) int {
@@ -44,10 +46,16 @@ func (a *assoc) get(k int) (int, int, bool) { // stored key, value
 // put replaces key AND value of a tying entry (what every tree of the library does)
 func (a *assoc) put(k, v int) {
 	if i := a.find(k); i >= 0 {
+		if a.keepOldKey {
+			k = a.ents[i][0]
+		}
 		a.ents[i] = [2]int{k, v}
 		return
 	}
 	a.ents = append(a.ents, [2]int{k, v})
+	if a.insertion {
+		return
+	}
 	sort.SliceStable(a.ents, func(i, j int) bool { return a.cmp(a.ents[i][0], a.ents[j][0]) < 0 })
 }
 
@@ -80,8 +88,9 @@ type tieModel struct {
 }
 
 func newTieModel(cfg Config) *tieModel {
-	m := &tieModel{kind: cfg.Kind, fwd: &assoc{cmp: rankCmpOf(cfg.KT, cfg.KRev, cfg.KTie)}}
-	if cfg.Kind == "TreeBidiMap" {
+	linked := cfg.Kind == "LinkedHashSet" || cfg.Kind == "LinkedHashMap"
+	m := &tieModel{kind: cfg.Kind, fwd: &assoc{cmp: rankCmpOf(cfg.KT, cfg.KRev, cfg.KTie), insertion: linked, keepOldKey: linked}}
+	if isBidiKind(cfg.Kind) {
 		m.inv = &assoc{cmp: rankCmpOf(cfg.VT, cfg.VRev, cfg.VTie)}
 	}
 	return m
@@ -142,7 +151,8 @@ func (m *tieModel) obs() []comp {
 	n := len(m.fwd.ents)
 	add("size", fmt.Sprint(n))
 	add("empty", fmt.Sprint(n == 0))
-	if m.kind == "TreeSet" {
+	hash := isHashKind(m.kind)
+	if isSetKind(m.kind) {
 		add("values", fmt.Sprint(m.fwd.keys()))
 		var b strings.Builder
 		for v := 0; v < poolN; v++ {
@@ -153,6 +163,10 @@ func (m *tieModel) obs() []comp {
 			}
 		}
 		add("contains", b.String())
+		if hash {
+			add("well_formed", "true")
+			return out
+		}
 		f, bk := [][2]int{}, [][2]int{}
 		for i, k := range m.fwd.keys() {
 			f = append(f, [2]int{i, k})
@@ -166,7 +180,7 @@ func (m *tieModel) obs() []comp {
 		return out
 	}
 	add("keys", fmt.Sprint(m.fwd.keys()))
-	if m.inv != nil {
+	if m.kind == "TreeBidiMap" {
 		add("values", fmt.Sprint(m.inv.keys()))
 	} else {
 		add("values", fmt.Sprint(m.fwd.vals()))
@@ -184,6 +198,10 @@ func (m *tieModel) obs() []comp {
 		}
 		add("getkey", strings.Join(gets, " "))
 	}
+	if hash {
+		add("well_formed", "true")
+		return out
+	}
 	bk := [][2]int{}
 	for i := n - 1; i >= 0; i-- {
 		bk = append(bk, m.fwd.ents[i])
@@ -196,8 +214,43 @@ func (m *tieModel) obs() []comp {
 
 // ---------- the relational case ----------
 
+var floatKinds = []string{"TreeSet", "TreeMap", "TreeBidiMap", "RedBlackTree", "AVLTree", "BTree", "BinaryHeap", "PriorityQueue",
+	"HashSet", "LinkedHashSet", "HashMap", "LinkedHashMap", "HashBidiMap"}
+
+// tieMode: the flavour of a relational case
+func tieMode(idx int) string {
+	switch (idx / 5) % 8 {
+	case 2, 6:
+		return "float" // float64 with the default constructors
+	case 3:
+		return "samevalue" // bidirectional maps loading documents in which two keys carry the same value
+	}
+	return "tie"
+}
+
 func chooseTieConfig(g *rng, seed uint64, idx int) Config {
 	n := idx / 5
+	switch tieMode(idx) {
+	case "float":
+		kind := floatKinds[(n/8+int(seed%13))%len(floatKinds)]
+		cfg := Config{Kind: kind, KT: "float", VT: "tstring", Cap: 1, Order: 3, Default: takesComparator(kind)}
+		if !isKVKind(kind) || kind == "TreeBidiMap" || g.chance(35) {
+			cfg.VT = "float"
+		}
+		if kind == "BTree" {
+			cfg.Order = g.between(3, 8)
+		}
+		return cfg
+	case "samevalue":
+		cfg := Config{Kind: []string{"HashBidiMap", "TreeBidiMap"}[(n/8)%2], Cap: 1, Order: 3}
+		t := [][2]string{{"tstring", "tstring"}, {"tint", "tstring"}, {"tstring", "tint"}, {"tint", "tint"}}[(n/16)%4]
+		cfg.KT, cfg.VT = t[0], t[1]
+		if cfg.Kind == "TreeBidiMap" {
+			cfg.KRev, cfg.VRev = g.chance(30), g.chance(30)
+		}
+		return cfg
+	}
+	n = n/8*5 + map[int]int{0: 0, 1: 1, 4: 2, 5: 3, 7: 4}[n%8]
 	kind := tieKinds[(n+int(seed%6))%len(tieKinds)]
 	cfg := Config{Kind: kind, KT: "tstring", VT: "tstring", Cap: 1, Order: 3}
 	switch (n / len(tieKinds)) % 4 {
@@ -272,37 +325,60 @@ func (c *caseCtx) tieAtom(cmp func(a, b int) int) int {
 	a := c.gen.atom()
 	if c.g.chance(55) {
 		cl := classOf(cmp, a)
-		a = cl[c.g.intn(len(cl))]
+		if b := cl[c.g.intn(len(cl))]; !c.gen.forbid[b] {
+			a = b
+		}
 	}
 	return a
+}
+
+// docAtom: a tying atom that can be written in a JSON document
+func (c *caseCtx) docAtom(typ string, cmp func(a, b int) int) int {
+	for tries := 0; ; tries++ {
+		a := c.tieAtom(cmp)
+		if atomOf(typ).jsonable(a) || tries > 50 {
+			return a
+		}
+	}
+}
+
+func (c *caseCtx) docClassMember(typ string, cmp func(a, b int) int, of int) int {
+	var cl []int
+	for _, x := range classOf(cmp, of) {
+		if atomOf(typ).jsonable(x) && !c.gen.forbid[x] {
+			cl = append(cl, x)
+		}
+	}
+	if len(cl) == 0 {
+		return of
+	}
+	return cl[c.g.intn(len(cl))]
 }
 
 // tieContent draws a document whose names / elements / values tie
 func (c *caseCtx) tieContent(kcmp, vcmp func(a, b int) int) content {
 	g := c.g
+	kt, vt := c.s.kt, c.s.vt
 	ct := content{kv: c.kv}
 	n := g.between(0, 9)
 	if !c.kv {
 		for i := 0; i < n; i++ {
 			switch {
 			case i > 0 && g.chance(45): // another spelling of an earlier element's class
-				cl := classOf(kcmp, ct.arr[g.intn(len(ct.arr))])
-				ct.arr = append(ct.arr, cl[g.intn(len(cl))])
+				ct.arr = append(ct.arr, c.docClassMember(kt, kcmp, ct.arr[g.intn(len(ct.arr))]))
 			default:
-				ct.arr = append(ct.arr, c.tieAtom(kcmp))
+				ct.arr = append(ct.arr, c.docAtom(kt, kcmp))
 			}
 		}
 		return ct
 	}
 	for i := 0; i < n; i++ {
-		k, v := c.tieAtom(kcmp), c.tieAtom(vcmp)
+		k, v := c.docAtom(kt, kcmp), c.docAtom(vt, vcmp)
 		if i > 0 && g.chance(45) {
-			cl := classOf(kcmp, ct.mem[g.intn(len(ct.mem))][0])
-			k = cl[g.intn(len(cl))]
+			k = c.docClassMember(kt, kcmp, ct.mem[g.intn(len(ct.mem))][0])
 		}
-		if i > 0 && g.chance(30) {
-			cl := classOf(vcmp, ct.mem[g.intn(len(ct.mem))][1])
-			v = cl[g.intn(len(cl))]
+		if i > 0 && g.chance(35) { // the same (or a tying) value under another key
+			v = c.docClassMember(vt, vcmp, ct.mem[g.intn(len(ct.mem))][1])
 		}
 		ct.mem = append(ct.mem, [2]int{k, v})
 	}
@@ -313,6 +389,29 @@ func hasPair(mem [][2]int, k, v int) bool {
 	for _, m := range mem {
 		if m[0] == k && m[1] == v {
 			return true
+		}
+	}
+	return false
+}
+
+func pairwiseDistinct(l []int, cmp func(a, b int) int) bool {
+	for i := range l {
+		for j := 0; j < i; j++ {
+			if cmp(l[i], l[j]) == 0 {
+				return false
+			}
+		}
+	}
+	return true
+}
+
+// keysCanTie: do two different member names of the document tie under the key comparator?
+func keysCanTie(final [][2]int, kcmp func(a, b int) int) bool {
+	for i := range final {
+		for j := 0; j < i; j++ {
+			if final[i][0] != final[j][0] && kcmp(final[i][0], final[j][0]) == 0 {
+				return true
+			}
 		}
 	}
 	return false
@@ -331,7 +430,9 @@ func strictlyAscending(l []int, cmp func(a, b int) int) bool {
 // the model re-synchronised with whatever valid resolution the container chose.
 func (c *caseCtx) tieLoad() *tieModel {
 	cfg := c.cfg
-	bidi := cfg.Kind == "TreeBidiMap"
+	bidi := isBidiKind(cfg.Kind)
+	hash := isHashKind(cfg.Kind)
+	sortedKind := !hash && cfg.Kind != "LinkedHashSet" && cfg.Kind != "LinkedHashMap"
 	kcmp := rankCmpOf(cfg.KT, cfg.KRev, cfg.KTie)
 	vcmp := rankCmpOf(cfg.VT, cfg.VRev, "")
 	if bidi {
@@ -369,10 +470,16 @@ func (c *caseCtx) tieLoad() *tieModel {
 		}
 	}
 	size, vals := c.s.size(), c.s.values()
+	if hash { // canonical order
+		vals = sortedInts(vals)
+	}
 	var keys []int
 	stored := [][2]int{}
 	if c.kv {
 		keys = c.s.keys()
+		if hash {
+			keys = sortedInts(keys)
+		}
 		for _, k := range keys {
 			v, ok := c.s.get(k)
 			if !ok {
@@ -393,9 +500,11 @@ func (c *caseCtx) tieLoad() *tieModel {
 		"Size(), len(Keys()) and len(Values()) differ after loading a document whose names / values tie", func() string {
 			return fmt.Sprintf("expected Size() == len(Keys()) == len(Values()), observed %d, %d, %d, Empty() %v; %s", size, len(keys), len(vals), c.s.empty(), state())
 		})
-	c.check("tie_load_keys_ascending", strictlyAscending(keys, kcmp), "keys are not strictly ascending under the comparator (two stored keys tie or are out of order) after loading", state)
+	c.check("tie_load_keys_ascending", pairwiseDistinct(keys, kcmp) && (!sortedKind || strictlyAscending(keys, kcmp)),
+		"keys are not strictly ascending under the comparator (two stored keys tie or are out of order) after loading", state)
 	if bidi {
-		c.check("tie_load_values_ascending", strictlyAscending(vals, vcmp), "Values() are not strictly ascending under the value comparator after loading", state)
+		c.check("tie_load_values_ascending", pairwiseDistinct(vals, vcmp) && (!sortedKind || strictlyAscending(vals, vcmp)),
+			"Values() are not strictly ascending under the value comparator (two stored values tie) after loading", state)
 	}
 	fromDoc := true
 	for _, p := range stored {
@@ -470,6 +579,33 @@ func (c *caseCtx) tieLoad() *tieModel {
 		}
 		c.check("tie_load_bidi_one_to_one", ok, "bidirectional map is not one-to-one after loading a document whose names / values tie", func() string { return bad + "; " + state() })
 	}
+	if bidi && !keysCanTie(final, kcmp) {
+		// no key collisions: every document value must be held by exactly one of the keys that carry it
+		ok, bad := true, ""
+		for _, f := range final {
+			n := 0
+			for _, p := range stored {
+				if vcmp(p[1], f[1]) == 0 {
+					n++
+					carried := false
+					for _, f2 := range final {
+						if f2[0] == p[0] && vcmp(f2[1], f[1]) == 0 {
+							carried = true
+						}
+					}
+					if !carried {
+						n = -99
+					}
+				}
+			}
+			if n != 1 {
+				ok, bad = false, "value "+atomText(c.s.vt, f[1])
+			}
+		}
+		c.check("tie_load_values_represented", ok, "a document value is not held by exactly one of the keys that carry it", func() string {
+			return fmt.Sprintf("%s; document members %s; %s", bad, content{kv: true, mem: final}.text(c.s.kt, c.s.vt), state())
+		})
+	}
 	if c.s.iterF != nil {
 		it := c.s.iterF()
 		want := stored
@@ -497,6 +633,7 @@ func (c *caseCtx) tieLoad() *tieModel {
 			k, _ := c.s.getKey(v)
 			m.inv.ents = append(m.inv.ents, [2]int{v, k})
 		}
+		sort.SliceStable(m.inv.ents, func(i, j int) bool { return vcmp(m.inv.ents[i][0], m.inv.ents[j][0]) < 0 })
 	}
 	c.compareModel(m, "tie_load_followup", "right after the load (re-synchronised model)")
 	if c.g.chance(50) {
@@ -575,6 +712,10 @@ func (c *caseCtx) tieOp(kcmp, vcmp func(a, b int) int) Op {
 func (c *caseCtx) runTieCase() {
 	g := c.g
 	cfg := c.cfg
+	if cfg.KT == "float" {
+		c.runFloatCase()
+		return
+	}
 	kcmp := rankCmpOf(cfg.KT, cfg.KRev, cfg.KTie)
 	vcmp := rankCmpOf(cfg.VT, cfg.VRev, cfg.VTie)
 
